@@ -412,7 +412,7 @@ impl Default for Settings {
     fn default() -> Self {
         Self {
             harvest_deadline: Duration::from_millis(1000),
-            pool_wait: Duration::from_millis(3000),
+            pool_wait: Duration::from_millis(8000),
         }
     }
 }
@@ -695,6 +695,9 @@ impl<'a> World<'a> {
     // --------------------------------------------------------------------------------------
 
     fn on_hook(&mut self, e: verif::Event) {
+        if std::env::var_os("E_C01_TRACE").is_some() {
+            eprintln!("hook step={} {:?}", self.step_idx, e);
+        }
         let step = self.step_idx;
         self.trace.push(TEv {
             seq: e.seq,
